@@ -2,6 +2,7 @@ package eb
 
 import (
 	"fmt"
+	"github.com/openebs/jiva/backend/dynamic"
 
 	"github.com/openebs/jiva/app"
 	"github.com/openebs/jiva/controller"
@@ -34,7 +35,7 @@ func (f factoryB) VerifyReplicaAlive(address string) bool { return true }
 
 func (cl *cluster) setupClone() {
 	cl.feB = &frontend{}
-	cl.cB = controller.NewController(controller.WithName("clonevol"), controller.WithBackend(factoryB{cl}), controller.WithFrontend(cl.feB, ""), controller.WithRF(1))
+	cl.cB = controller.NewController(controller.WithName("clonevol"), controller.WithBackend(dynamic.New(map[string]types.BackendFactory{"tcp": factoryB{cl}})), controller.WithFrontend(cl.feB, ""), controller.WithRF(1))
 	cl.ctlRouterB = crest.NewRouter(crest.NewServer(cl.cB))
 	cl.nodes[1].(*RealNode).isClone = true
 }
